@@ -12,7 +12,7 @@ import numpy as np
 from .. import common as C
 
 PROP = "C01"
-GEN_REGIONS = ["CoreKernels", "CudaKernels", "NumpyKernels", "BuildQ"]
+GEN_REGIONS = ["CoreKernels", "CudaKernels", "NumpyKernels", "BuildQ", "Analysis"]
 THEOREMS = {
     "SpecKitV.Lemmas.Goertzel": ["goertzelS_dft", "forRange_goertzel", "segDFT_toC", "goertzel_pair_outputs", "goertzel_pair_segDFT"],
     "SpecKitV.Props.C01": [
@@ -38,6 +38,8 @@ THEOREMS = {
     # `_build_Q` TRANSLATED from core.py each run (Gen/BuildQ.lean) satisfies the basis contract, so the polynomial kernels of the three backends called
     # with the library's own basis equal the reference estimator of order p (L >= p+1), and give all-zero statistics on short segments
     "SpecKitV.Props.BuildQGen": ["BuildQ.gen_build_Q_none", "BuildQ.gen_build_Q_isPolyBasis", "BuildQ.libQ_eq_some", "BuildQ.libQ_isPolyBasis", "BuildQ.libQ_m", "BuildQ.libQ_ortho", "BuildQ.stats_poly_csd_libQ_eq_ref", "BuildQ.stats_poly_auto_libQ_eq_ref", "BuildQ.stats_poly_csd_cuda_libQ_eq_ref", "BuildQ.stats_poly_auto_cuda_libQ_eq_ref", "BuildQ.np_poly_csd_libQ_eq_ref", "BuildQ.np_poly_auto_libQ_eq_ref", "BuildQ.stats_poly_csd_libQ_short", "BuildQ.stats_poly_auto_libQ_short", "BuildQ.stats_poly_csd_cuda_libQ_short", "BuildQ.stats_poly_auto_cuda_libQ_short", "BuildQ.np_poly_csd_libQ_short", "BuildQ.np_poly_auto_libQ_short", "BuildQ.stats_poly_csd_libQ_L1", "BuildQ.stats_poly_auto_libQ_L1"],
+    # the digital frequency handed to every kernel by the single-bin entry point is 2*pi*f/fs for the frequency the result reports (translated each run)
+    "SpecKitV.Props.AnalysisGen": ["gen_single_bin_omega_eq"],
 }
 CONTRACTS = ["np.linalg.qr (through _build_Q) returns a basis Q; the kernels are proved equal to the estimator that subtracts Q Qᵀ seg for ANY Q",
              # contracts of the NumPy routines the translated _build_Q refers to (definitions in lean/SpecKitV/Np/BuildQ.lean; differential run in C08)
@@ -759,7 +761,17 @@ def check_analyzer(P: C.Part, a: Dict[str, Any]) -> None:
     try:
         with warnings.catch_warnings(), np.errstate(all="ignore"):
             warnings.simplefilter("ignore")
-            res = SpectrumAnalyzer(data, fs, **opts).compute_single_bin(float(a["freq"]), L=int(a["L"]))
+            # request form: by segment length, or by resolution — fres = fs/L exactly, or a resolution that does NOT divide fs (the segment
+            # length is then round(fs/fres) = L while fs/fres is fractional: the statistics must still be the windowed DFT at the frequency
+            # the result reports, 2*pi*f/fs — wave-6 miss C01f: omega derived from the bin number f/fres and L), through the method or
+            # the module-level wrapper
+            req = a.get("req", "L")
+            kw = {"L": int(a["L"])} if req == "L" else {"fres": fs / (int(a["L"]) + (0.0 if req == "fres_int" else float(a.get("dfrac", 0.3))))}
+            if a.get("entry", "method") == "module":
+                import speckit as _sk
+                res = _sk.compute_single_bin(data, fs, float(a["freq"]), **kw, **opts)
+            else:
+                res = SpectrumAnalyzer(data, fs, **opts).compute_single_bin(float(a["freq"]), **kw)
             obs = (float(res.XX_mean[0]), float(res.YY_mean[0]), float(np.real(res.XY[0])), float(np.imag(res.XY[0])), float(res.XY_M2[0]))
     finally:
         logging.disable(logging.NOTSET)
@@ -777,12 +789,15 @@ def check_analyzer(P: C.Part, a: Dict[str, Any]) -> None:
         pj = 1e-12
         tol = (tol[0] + pj * ra * ra, tol[1] + pj * rb * rb, tol[2] + pj * ra * rb, tol[3] + pj * ra * rb, tol[4] + 4 * pj * (ra * rb) ** 2)
     be = str(opts.get("backend"))
-    label = (f"SpectrumAnalyzer(..., order={order}, win={opts['win']}, olap={opts['olap']}, backend={be}).compute_single_bin(f={float(a['freq'])!r}, L={L}) "
+    label = (f"SpectrumAnalyzer(..., order={order}, win={opts['win']}, olap={opts['olap']}, backend={be}).compute_single_bin(f={float(a['freq'])!r}, "
+             f"{'L=%d' % L if a.get('req', 'L') == 'L' else 'fres=%r' % (fs / (int(a['L']) + (0.0 if a.get('req') == 'fres_int' else float(a.get('dfrac', 0.3)))))}"
+             f"{', module-level wrapper' if a.get('entry') == 'module' else ''}) "
              f"{'cross' if cross else 'auto'} {a['kind']} record (fs={fs!r}, K={K})")
     sig = {"entry": "compute_single_bin", "backend": be, "mode": "cross" if cross else "auto", "order": order}
     rp = {"analyzer": {"x": np.asarray(x).tolist(), "y": None if y is None else np.asarray(y).tolist(), "fs": fs, "opts": opts, "freq": float(a["freq"]),
-                       "L": int(a["L"]), "kind": a["kind"]}}
+                       "L": int(a["L"]), "kind": a["kind"], "req": a.get("req", "L"), "dfrac": a.get("dfrac", 0.3), "entry": a.get("entry", "method")}}
     P.cases += 1
+    P.hit(f"analyzer:req={a.get('req', 'L')}:{a.get('entry', 'method')}")
     P.hit(f"analyzer:{be}")
     P.hit(f"analyzer:order{order}:{'cross' if cross else 'auto'}")
     P.hit(f"analyzer:K={K}")
@@ -804,6 +819,9 @@ def analyzer_stream(ctx, P: C.Part, rng: np.random.Generator, intensive: bool) -
         if ctx.time_left() < 12 or len(P.violations) >= 5:
             break
         a = analyzer_locked_case(rng, i)
+        a["req"] = ("L", "fres_frac", "fres_int", "fres_frac")[i % 4]
+        a["dfrac"] = (0.3, -0.37, 0.45, 0.11, -0.2)[(i // 4) % 5]
+        a["entry"] = "module" if (i // 2) % 3 == 2 else "method"
         try:
             check_analyzer(P, a)
         except Exception as ex:
@@ -811,7 +829,8 @@ def analyzer_stream(ctx, P: C.Part, rng: np.random.Generator, intensive: bool) -
                 what=f"compute_single_bin raised {ex!r} on an in-range {a['kind']} record (opts {a['opts']}, L={a['L']}, N={len(a['x'])})",
                 signature={"entry": "compute_single_bin", "raises": True},
                 replay={"analyzer": {"x": a["x"].tolist(), "y": None if a["y"] is None else a["y"].tolist(), "fs": a["fs"], "opts": a["opts"],
-                                     "freq": a["freq"], "L": a["L"], "kind": a["kind"]}, "error": repr(ex)}))
+                                     "freq": a["freq"], "L": a["L"], "kind": a["kind"], "req": a.get("req", "L"), "dfrac": a.get("dfrac", 0.3),
+                                     "entry": a.get("entry", "method")}, "error": repr(ex)}))
         if i == 0:
             P.sample({"op": "oracle-analyzer", "kind": a["kind"], "N": len(a["x"]), "fs": a["fs"], "opts": a["opts"], "freq": a["freq"], "L": a["L"]})
 
@@ -928,7 +947,8 @@ def replay(ctx, data) -> C.Part:
         if "analyzer" in v["replay"]:          # public single-bin entry on a near-identical-segment record
             a = v["replay"]["analyzer"]
             check_analyzer(P, {"x": np.array(a["x"], dtype=np.float64), "y": None if a["y"] is None else np.array(a["y"], dtype=np.float64),
-                               "fs": a["fs"], "opts": a["opts"], "freq": a["freq"], "L": a["L"], "kind": a.get("kind", "?")})
+                               "fs": a["fs"], "opts": a["opts"], "freq": a["freq"], "L": a["L"], "kind": a.get("kind", "?"),
+                               "req": a.get("req", "L"), "dfrac": a.get("dfrac", 0.3), "entry": a.get("entry", "method")})
             continue
         if "case" not in v["replay"]:
             continue
